@@ -44,6 +44,9 @@ pub enum Block {
     Raw(Vec<u8>),
     /// increment the 32-bit progress word (main-line counter; lets oracles see progress)
     Tick,
+    /// 1-4 register-only instructions on ER4 / ER6 drawn from a table of ~90 forms (arithmetic, logic, shifts, rotates,
+    /// moves, bit operations on registers): variety of what executes at a boundary, nothing an oracle looks at
+    Filler(u32),
     /// the most expensive instruction form: MOV.L #progress,ER6 ; MOV.L @(0:24,ER6),ER1 (five fetch cycles + a long read)
     Heavy,
     /// rewrite a vector table entry at run time with ordinary stores: ER0 saved ; MOV.L #(top<<24 | handler),ER0 ; MOV.L ER0,@(4*vector) ; ER0 restored
@@ -152,6 +155,77 @@ pub struct Guest {
     /// DRAM windows the guest may touch (for digests)
     pub dram_windows: Vec<(u32, u32)>,
     pub main_end: u32,
+}
+
+/// One register-only instruction word operating on registers 4 and 6 (byte: R4H=4, R4L=c, R6H=6, R6L=e; word: R4=4,
+/// E4=c, R6=6, E6=e; long: ER4, ER6). No memory operand, no ER0-3/ER5/ER7, no division.
+pub fn filler_word(x: u32) -> u16 {
+    let b = [0x4u16, 0xc, 0x6, 0xe]; // byte / word register numbers
+    let l = [0x4u16, 0x6]; // long register numbers
+    let rs = b[(x >> 8) as usize % 4];
+    let rd = b[(x >> 10) as usize % 4];
+    let ls = l[(x >> 8) as usize % 2];
+    let ld = l[(x >> 9) as usize % 2];
+    let imm = (x >> 12) as u16 & 0xff;
+    let bit = (x >> 12) as u16 & 7;
+    match (x >> 20) % 56 {
+        0 => 0x0800 | (rs << 4) | rd,          // ADD.B
+        1 => 0x0900 | (rs << 4) | rd,          // ADD.W
+        2 => 0x0a80 | (ls << 4) | ld,          // ADD.L
+        3 => 0x1800 | (rs << 4) | rd,          // SUB.B
+        4 => 0x1900 | (rs << 4) | rd,          // SUB.W
+        5 => 0x1a80 | (ls << 4) | ld,          // SUB.L
+        6 => 0x1c00 | (rs << 4) | rd,          // CMP.B
+        7 => 0x1d00 | (rs << 4) | rd,          // CMP.W
+        8 => 0x1f80 | (ls << 4) | ld,          // CMP.L
+        9 => 0x1600 | (rs << 4) | rd,          // AND.B
+        10 => 0x1400 | (rs << 4) | rd,         // OR.B
+        11 => 0x1500 | (rs << 4) | rd,         // XOR.B
+        12 => 0x6600 | (rs << 4) | rd,         // AND.W
+        13 => 0x6400 | (rs << 4) | rd,         // OR.W
+        14 => 0x6500 | (rs << 4) | rd,         // XOR.W
+        15 => 0x1700 | rd,                     // NOT.B
+        16 => 0x1710 | rd,                     // NOT.W
+        17 => 0x1730 | ld,                     // NOT.L
+        18 => 0x1780 | rd,                     // NEG.B
+        19 => 0x1790 | rd,                     // NEG.W
+        20 => 0x17b0 | ld,                     // NEG.L
+        21 => 0x1750 | rd,                     // EXTU.W
+        22 => 0x1770 | ld,                     // EXTU.L
+        23 => 0x1000 | rd,                     // SHLL.B
+        24 => 0x1010 | rd,                     // SHLL.W
+        25 => 0x1030 | ld,                     // SHLL.L
+        26 => 0x1080 | rd,                     // SHAL.B
+        27 => 0x10b0 | ld,                     // SHAL.L
+        28 => 0x1100 | rd,                     // SHLR.B
+        29 => 0x1110 | rd,                     // SHLR.W
+        30 => 0x1180 | rd,                     // SHAR.B
+        31 => 0x11b0 | ld,                     // SHAR.L
+        32 => 0x1200 | rd,                     // ROTXL.B
+        33 => 0x1290 | rd,                     // ROTL.W
+        34 => 0x1300 | rd,                     // ROTXR.B
+        35 => 0x13b0 | ld,                     // ROTR.L
+        36 => 0x0a00 | rd,                     // INC.B
+        37 => 0x0b50 | rd,                     // INC.W #1
+        38 => 0x0b70 | ld,                     // INC.L #1
+        39 => 0x1a00 | rd,                     // DEC.B
+        40 => 0x1b50 | rd,                     // DEC.W #1
+        41 => 0x1bf0 | ld,                     // DEC.L #2
+        42 => 0x0b00 | ld,                     // ADDS #1
+        43 => 0x1b90 | ld,                     // SUBS #4
+        44 => 0x0c00 | (rs << 4) | rd,         // MOV.B
+        45 => 0x0d00 | (rs << 4) | rd,         // MOV.W
+        46 => 0x0f80 | (ls << 4) | ld,         // MOV.L
+        47 => 0x0e00 | (rs << 4) | rd,         // ADDX
+        48 => 0x8000 | (rd << 8) | imm,        // ADD.B #imm
+        49 => 0xa000 | (rd << 8) | imm,        // CMP.B #imm
+        50 => 0xe000 | (rd << 8) | imm,        // AND.B #imm
+        51 => 0xc000 | (rd << 8) | imm,        // OR.B #imm
+        52 => 0x7300 | (bit << 4) | rd,        // BTST #b,Rd
+        53 => 0x7000 | (bit << 4) | rd,        // BSET #b,Rd
+        54 => 0x7200 | (bit << 4) | rd,        // BCLR #b,Rd
+        _ => 0x5000 | (rs << 4) | (rd & 7),    // MULXU.B Rs,Rd
+    }
 }
 
 pub struct Layout {
@@ -471,6 +545,14 @@ impl GuestSpec {
                     a.mov_w_imm(0, *val);
                     a.w(0x6ba0);
                     a.l(*addr & 0x00ff_ffff);
+                }
+                Block::Filler(seed) => {
+                    let mut x = *seed | 1;
+                    let n = 1 + (x >> 29) % 4;
+                    for _ in 0..n {
+                        x = x.wrapping_mul(1664525).wrapping_add(1013904223);
+                        a.w(filler_word(x));
+                    }
                 }
                 Block::Tick => {
                     a.push_l(0);
